@@ -71,8 +71,12 @@ func ergoDir(opts GlobalOptions) (string, error) {
 		}
 		start = wd
 	}
-	debugf(opts, "discover start=%s", start)
-	return resolveErgoDir(start)
+	abs, err := filepath.Abs(start)
+	if err != nil {
+		return "", err
+	}
+	debugf(opts, "discover start=%s", abs)
+	return resolveErgoDir(abs)
 }
 
 // getEventsPath returns the path to the events/plans file.
